@@ -1415,7 +1415,7 @@ def fuel_ind(f, uses=()):
 
 
 BN_FULL = "[Sub α] [Div α] [Neg α] [Zero α] [OfNat α 2] [Max α] [LE α] [DecidableLE α]"
-WS_FULL = "[Add α] [Sub α] [Mul α] [Neg α] [Zero α]"
+WS_FULL = "[Add α] [Sub α] [Mul α] [Div α] [Zero α] [OfNat α 2]"
 BN = dict(file="bottleneck_search", func="bottleneck", pyparams=["dgm1", "dgm2", "matching"], matrix="D", flag="return_matching",
           variables="[LE α] [DecidableLE α]", full_variables=BN_FULL, entry_ty="Ext α", shape={"D": ("M", "N")},
           oracle_call=("HopcroftKarp", "maximum_matching"), alias={"HopcroftKarp": "oracle"})
@@ -1611,32 +1611,32 @@ TARGETS = [
               "the solver call, the sum and the extraction together: value and rows of the model"),
          ],
          full_obligations=[
-             ("src_wasserstein_eq_model", "(sqrt : α → α) (cp sp : α) (lsa : Mat α → List (Nat × Nat)) (d1 d2 : Dgm α)",
-              "wasserstein sqrt cp sp lsa d1 d2 =\n"
-              "      match (assign lsa (matrixOf sqrt cp sp d1 d2)).bind (fun r =>\n"
-              "          (ws_rows (prepared d1).length (prepared d2).length (matrixOf sqrt cp sp d1 d2) r.1 r.2.1).map\n"
+             ("src_wasserstein_eq_model", "(sqrt : α → α) (lsa : Mat α → List (Nat × Nat)) (d1 d2 : Dgm α)",
+              "wasserstein sqrt lsa d1 d2 =\n"
+              "      match (assign lsa (matrixOf sqrt d1 d2)).bind (fun r =>\n"
+              "          (ws_rows (prepared d1).length (prepared d2).length (matrixOf sqrt d1 d2) r.1 r.2.1).map\n"
               "            fun rows => (r.2.2, rows)) with\n"
               "      | none => .error .index\n"
               "      | some (v, rows) => .ok { value := v, warn1 := warned d1, warn2 := warned d2, rows := rows }",
               "by\n  have h1 : assign (α := α) = %s.assign := by funext l d; exact src_assign_eq_ref l d\n"
               "  have h2 : ws_rows (α := α) = %s.ws_rows := by funext m n d a b; exact src_ws_rows_eq_ref m n d a b\n"
-              "  rw [h1, h2]; exact %s.wasserstein_eq sqrt cp sp lsa d1 d2" % (REF, REF, BR),
+              "  rw [h1, h2]; exact %s.wasserstein_eq sqrt lsa d1 d2" % (REF, REF, BR),
               "the whole model `wasserstein` is: the model's finite-death filter and placeholders, the model's matrix (entries "
               "translated: `src_aug_entry_eq_model` of Generated/SrcWasserstein.lean), "
               "then the TRANSLATED solver call, sum and extraction (`Err.index` for `none`)"),
-             ("src_wasserstein_chain_eq_model", "(sqrt : α → α) (cp sp : α) (lsa : Mat α → List (Nat × Nat)) (c1 c2 : Nat) (h1 : 0 < c1) "
+             ("src_wasserstein_chain_eq_model", "(sqrt : α → α) (lsa : Mat α → List (Nat × Nat)) (c1 c2 : Nat) (h1 : 0 < c1) "
               "(h2 : 0 < c2)\n    (d1 d2 : Dgm α)",
-              "wasserstein sqrt cp sp lsa d1 d2 =\n"
+              "wasserstein sqrt lsa d1 d2 =\n"
               "      match (ws_preamble c1 c2 d1 d2).bind (fun p =>\n"
-              "          (assign lsa (augMatrix sqrt cp sp (UNLIFT p.1) (UNLIFT p.2.2.1))).bind fun r =>\n"
-              "            (ws_rows p.2.1 p.2.2.2.1 (augMatrix sqrt cp sp (UNLIFT p.1) (UNLIFT p.2.2.1)) r.1 r.2.1).map\n"
+              "          (assign lsa (augMatrix sqrt (UNLIFT p.1) (UNLIFT p.2.2.1))).bind fun r =>\n"
+              "            (ws_rows p.2.1 p.2.2.2.1 (augMatrix sqrt (UNLIFT p.1) (UNLIFT p.2.2.1)) r.1 r.2.1).map\n"
               "              fun rows => (r.2.2, rows, p.2.2.2.2.1, p.2.2.2.2.2)) with\n"
               "      | none => .error .index\n"
               "      | some (v, rows, w1, w2) => .ok { value := v, warn1 := w1, warn2 := w2, rows := rows }".replace("UNLIFT", BR + ".unlift"),
               "by\n  have h0 : ws_preamble (α := α) = %s.ws_preamble := by funext a b c d; exact src_ws_preamble_eq_ref a b c d\n"
               "  have h1' : assign (α := α) = %s.assign := by funext l d; exact src_assign_eq_ref l d\n"
               "  have h2' : ws_rows (α := α) = %s.ws_rows := by funext m n d a b; exact src_ws_rows_eq_ref m n d a b\n"
-              "  rw [h0, h1', h2']; exact %s.wasserstein_chain_eq sqrt cp sp lsa c1 c2 h1 h2 d1 d2" % (REF, REF, REF, BR),
+              "  rw [h0, h1', h2']; exact %s.wasserstein_chain_eq sqrt lsa c1 c2 h1 h2 d1 d2" % (REF, REF, REF, BR),
               "**the whole routine as the chain of its translated parts**: the TRANSLATED preamble, the matrix `augMatrix` on the finite "
               "point lists (`unlift`; its entries are the translated `aug_entry` of Generated/SrcWasserstein.lean), the TRANSLATED solver "
               "call and sum, the TRANSLATED extraction -- equal to the model `wasserstein` for every solver, all diagrams, and arrays "
